@@ -47,7 +47,7 @@ def gen_cfg(rng, evs, threads):
     else:
         classes = [rng.choice([4, 0x25, 1])]
         subs = [0x0301]
-    tid = rng.choice([None, None, threads[0][0], 11, 99999, 0] + sorted({e[0] for e in evs}))
+    tid = rng.choice([None, None, 11, 99999, 0] + [t for t, _, _ in threads[:1]] + sorted({e[0] for e in evs}))
     return {'filter_class': classes, 'filter_subclass': subs, 'filter_tid': tid}
 
 
@@ -58,7 +58,8 @@ def run(ctx, model_ok):
     n = 60 if ctx.quick() else 800
     reqs, info = [], []
     for i in range(n):
-        threads, evs = sg.gen(rng, n_ops=rng.choice([6, 12, 20]), rich=(i % 2 == 1))
+        threads, evs = sg.gen(rng, n_ops=rng.choice([6, 12, 20]), rich=(i % 2 == 1), empty_map_ok=True)
+        t0 = threads[0] if threads else (evs[0][0], 1, b'')
         cfg = gen_cfg(rng, evs, threads)
         directed = None
         if i % 5 == 2:
@@ -112,12 +113,18 @@ def run(ctx, model_ok):
                     [[a_tid, c['TRACE_DATA_NEWTHREAD'], 0, [b_tid, pid, 0, 0]]])
             call = [[b_tid, c['BSC_read'], 1, [3, 0x1000, 16, 0]], [b_tid, c['BSC_read'], 2, [0, 16, 0, 0]]]
             k = rng.randrange(len(evs) + 1)
-            evs = evs[:k] + decl + call + evs[k:]
+            if rng.random() < 0.5:
+                # ... and B had already emitted a call before it was declared, in a dump whose thread map is empty: the repeated
+                # request must not remember the declaration from the first one
+                threads = []
+                evs = evs[:k] + call + decl + call + evs[k:]
+            else:
+                evs = evs[:k] + decl + call + evs[k:]
             directed = str(pid)
             cfg = {'filter_class': rng.choice([[4], [], [4, 3]]), 'filter_subclass': rng.choice([[], [0x040c]]),
                    'filter_tid': rng.choice([None, b_tid])}
         f = sg.v2(threads, evs).hex()
-        proc = directed or rng.choice([str(threads[0][1]), threads[0][2].decode() or 'Safari', 'Safari', 'xpcproxy', '55', '56', '7', 'launchd'])
+        proc = directed or rng.choice([str(t0[1]), t0[2].decode() or 'Safari', 'Safari', 'xpcproxy', '55', '56', '7', 'launchd'])
         base = {'color': False}
         # request 0: NO filter at all, with the formatted lines (the reference run: its traces, and the process column of
         # each); request 1: class / subclass / tid filters, REPEATED on the same object mixed with callstacks / kevents
